@@ -1,6 +1,7 @@
 /-
   C10 — Caller-owned arguments are never modified.
 -/
+import Distill.Props.DomHelpers
 import Distill.Model.Heap
 import Distill.Gen.Inventory
 import Distill.Gen.Funcs
